@@ -328,6 +328,7 @@ type simStats struct {
 	localCommits     int
 	counterIncs      int
 	aeRounds         int
+	ttReads          int
 	ttQueries        int
 	ttNontrivial     int
 	ttMultiParent    int
@@ -587,6 +588,24 @@ func (s *sim) exec(st Step) *hx.Failure {
 			if m.DocID != "" {
 				s.noteConcurrent(nodeIdx, doc, s.m.commits[m.Cid])
 			}
+		}
+		return s.changed(nodeIdx, []string{doc})
+	case "ttread":
+		doc, ok := s.resolveDoc(st.Doc)
+		if !ok || !s.m.knows(nodeIdx, doc) || s.m.deleted(nodeIdx, doc) {
+			return nil
+		}
+		cs := s.m.docCommits(nodeIdx, doc)
+		c := cs[st.Msg%len(cs)]
+		q := fmt.Sprintf(`query { Users(cid: %q, docID: %q) { _docID s pn } }`, c.cid, doc)
+		r := n.Exec(q)
+		s.logf("n%d time-travel read of %s at %s (model height %d) -> err=%q", nodeIdx, short(doc), short(c.cid), s.height(c.cid), r.Err())
+		if r.Panic != "" {
+			return hx.Failf("C03/panic/time-travel", "%s panicked: %s", q, r.Panic)
+		}
+		s.stats.ttReads++
+		if extra := s.cl.Collect(nodeIdx); len(extra) > 0 {
+			return hx.Failf("C20/event-for-read", "a time-travel read produced %d update events", len(extra))
 		}
 		return s.changed(nodeIdx, []string{doc})
 	case "deliver":
